@@ -36,6 +36,26 @@ add(
     "DESIGN.md 4 C02",
 )
 
+
+E1TECH = "bounded-exhaustive enumeration of inputs (stateless model checking of the implementation) against an exact reference model"
+
+
+def e1(pid, what, ref=None):
+    add(pid, "model_checking", "E1", E1TECH, "Stateless model checking of the implementation within stated bounds, nothing sampled: " + what, TRUST, ref or "DESIGN.md 4 " + pid)
+
+
+e1("C01", "every tempo map of <= 3 (thorough 6) segments over a 12-value BPM alphabet (incl. 0.001 and 10^6) x 7 gaps x 9+3 resolutions; one chart per map with all 7 event kinds at every probe tick, plus direct queries; compared with exact rational time.")
+e1("C03", "all 1023 lane/length patterns + open x flag lines x 4 contexts x 5-6 tempo maps x resolutions; sustain, longest, end tick, end time (vs un-hinted query) and last-note-end compared with the model.")
+e1("C04", "the complete decision table (6 distance classes around the threshold x 1024 ordered lane pairs x 16 flag combinations) for 30 (thorough 408) resolutions, plus all one-note tracks.")
+e1("C05", "every star-power list of <= 2 (thorough 3) phrases x every non-empty note-tick set in 0..8; membership index compared with the half-open first-cover rule.")
+e1("C06", "all permutations of a rich 6 (thorough 7) section chart x LF/CRLF x 3 entry points (BOM), all 40 headers / 780 pairs / 1024 subsets, unknown sections at every position, all required-section subsets; whole observation vs reference model and warning-count differences.")
+e1("C12", "every tempo map of <= 4 (thorough 5) segments over extreme BPMs (0.001 .. 10^6 and the strictness boundary) x 4 resolutions; EVERY tick queried, every adjacent pair and every cross-track pair compared.")
+e1("C13", "all 64 file subsets x all 128 selections (+None, empty, tuple form) of a 6-header universe; body replacements (valid/empty/garbage/invalid) x selections; oracle: unrestricted parse of the same text.")
+e1("C16", "every track of <= 4 (thorough 5) notes over 7 ticks x 2 sustain layouts x 3 tempo maps x every bound pair (ticks and timestamps, on / next to note times) in all five call forms; exact-fraction oracle.")
+add("C11", "model_checking", "E1+E2", "exhaustive hint table + exhaustive enumeration of event histories (sequences of ticks in any order) on the real parser; un-hinted query as oracle", "Explicit enumeration of all histories: every sequence of <= 4 (thorough 5) ticks in ANY order for 9 event kinds on 3-5 tempo maps (states are the sequences, nothing merged) and the full (map, tick, hint) table; invariant evaluated on every state.", TRUST, "DESIGN.md 4 C11")
+add("C14", "model_checking", "E1+E3", "exhaustive enumeration of garbage insertions executed on the real parser (differential) + product-automaton disjointness of the captured recognisers", "Every assignment of 0..2 unparsable lines to every insertion point of each section for every garbage line; observation must equal the base parse and warnings must grow by exactly the number of lines.", TRUST, "DESIGN.md 4 C14")
+add("C15", "fault_enumeration", "E1", "exhaustive single-fault enumeration at every position, executed on the real parser, verdict predicted by the reference model", "Every single corruption of the sync data at every position on bases of 1..4 tempo events x event placements around every tempo tick x 8 event kinds; then every query tick.", TRUST, "DESIGN.md 4 C15")
+
 PENDING = {}
 
 
